@@ -20,6 +20,7 @@ def run(ctx):
     ctx.oracle("o_schedules_block_diagonalize", k_schedules.oracle_schedules_bd)
     ctx.oracle("o_caller_dict", k_schedules.oracle_caller_dict)
     ctx.oracle("o_user_products", k_schedules.oracle_user_products)
+    ctx.oracle("o_sq_masked", k_schedules.oracle_sq_masked)
     return ctx.finish(lambda f: None)
 
 
